@@ -3,12 +3,20 @@ package props
 import (
 	"bytes"
 	"fmt"
+	"math/big"
 	"testing"
 	"time"
 
+	cometabci "github.com/cometbft/cometbft/abci/types"
+	cmtproto "github.com/cometbft/cometbft/proto/tendermint/types"
+	cryptocodec "github.com/cosmos/cosmos-sdk/crypto/codec"
 	cryptotypes "github.com/cosmos/cosmos-sdk/crypto/types"
 	sdk "github.com/cosmos/cosmos-sdk/types"
 	banktypes "github.com/cosmos/cosmos-sdk/x/bank/types"
+	"github.com/skip-mev/connect/v2/abci/strategies/currencypair"
+	vetypes "github.com/skip-mev/connect/v2/abci/ve/types"
+	connecttypes "github.com/skip-mev/connect/v2/pkg/types"
+	oracletypes "github.com/skip-mev/connect/v2/x/oracle/types"
 
 	opchildtypes "github.com/initia-labs/OPinit/x/opchild/types"
 	ophosttypes "github.com/initia-labs/OPinit/x/ophost/types"
@@ -132,6 +140,205 @@ func FuzzC07Payload(f *testing.F) {
 		}
 		if err := cs.liveness(tc.l2); err != nil {
 			t.Fatalf("C07 violated (bridge blocked): %v\npayload %x", err, data)
+		}
+	})
+}
+
+// fixedC03World: two bridges; bridge 1 has a final output over five withdrawals and a second
+// output (three withdrawals) that is not final yet; bridge 2 stores the same root as bridge 1's
+// first output. No generator: the fuzzer owns the claim bytes.
+func fixedC03World() (*c03World, []*ophosttypes.MsgFinalizeTokenWithdrawal) {
+	e := henv.NewL1(henv.L1Options{NoHook: true})
+	w := &c03World{e: e, period: 10 * time.Second, outs: map[uint64][]*mOutput{}, paid: map[string]bool{}}
+	for i := 0; i < 4; i++ {
+		w.users = append(w.users, henv.MakeUser(fmt.Sprintf("c03-%d", i)))
+	}
+	for b := uint64(1); b <= 2; b++ {
+		if r := e.Deliver(ophosttypes.NewMsgCreateBridge(w.users[0].Str, henv.DefaultBridgeConfig(w.users[0].Str, w.users[1].Str, w.period))); !r.OK() {
+			panic(r.Err)
+		}
+		e.Fund(ophosttypes.BridgeAddress(b), sdk.NewCoin("uinit", c03Rich), sdk.NewCoin("uusdc", c03Rich))
+	}
+	mk := func(b uint64, first uint64, n int) []wd {
+		var ts []wd
+		for i := 0; i < n; i++ {
+			ts = append(ts, wd{Bridge: b, Seq: first + uint64(i), From: "l2-user", To: w.users[i%4].Str, Denom: []string{"uinit", "uusdc"}[i%2], Amount: uint64(100 + i)})
+		}
+		return ts
+	}
+	propose := func(b uint64, o *mOutput) {
+		idx := uint64(len(w.outs[b]) + 1)
+		if r := e.Deliver(ophosttypes.NewMsgProposeOutput(w.users[0].Str, b, idx, idx*100, o.Root[:])); !r.OK() {
+			panic(r.Err)
+		}
+		o.Index, o.At = idx, e.Ctx.BlockTime()
+		w.outs[b] = append(w.outs[b], o)
+	}
+	o11 := buildOutput(mk(1, 1, 5), 1, bytes.Repeat([]byte{0x11}, 32))
+	propose(1, o11)
+	cp := *o11
+	propose(2, &cp)
+	e.Advance(w.period + time.Second)
+	o12 := buildOutput(mk(1, 6, 3), 0, bytes.Repeat([]byte{0x12}, 32))
+	propose(1, o12)
+	e.Advance(2 * time.Second)
+	var valid []*ophosttypes.MsgFinalizeTokenWithdrawal
+	for i, tu := range o11.Tuples {
+		valid = append(valid, claimMsg(w.users[3].Str, tu, o11, 1, i))
+	}
+	valid = append(valid, claimMsg(w.users[3].Str, o12.Tuples[0], o12, 2, 0))
+	return w, valid
+}
+
+// FuzzC03Claim: arbitrary bytes decoded as MsgFinalizeTokenWithdrawal (seeded with the encodings of
+// valid claims) against a fixed chain; accept/reject must agree with the reference verifier of
+// TestC03Rapid, a rejected claim changes nothing, and nothing panics.
+func FuzzC03Claim(f *testing.F) {
+	{
+		w, valid := fixedC03World()
+		for _, m := range valid {
+			bz, err := w.e.Enc.Marshaler.Marshal(m)
+			if err != nil {
+				panic(err)
+			}
+			f.Add(bz)
+		}
+	}
+	f.Fuzz(func(t *testing.T, data []byte) {
+		if len(data) > 4000 {
+			return
+		}
+		w, _ := fixedC03World()
+		var m ophosttypes.MsgFinalizeTokenWithdrawal
+		if err := w.e.Enc.Marshaler.Unmarshal(data, &m); err != nil {
+			return
+		}
+		if m.Amount.Amount.IsNil() {
+			// a claim without an amount: must be refused cleanly (the reference verifier is not consulted)
+			before := w.e.Digest()
+			if r := w.e.Deliver(&m); r.OK() || r.Panic != nil || w.e.Digest() != before {
+				t.Fatalf("C03 violated: a claim without an amount was not refused cleanly (ok=%v panic=%v)\nbytes %x", r.OK(), r.Panic, data)
+			}
+			return
+		}
+		for i := 0; i < 2; i++ { // the second round offers the same claim again
+			hOK, rOK, reason, err := w.tryClaim(&m)
+			if err != nil {
+				t.Fatalf("C03 violated (round %d): %v\noffered: %s\nbytes %x", i, err, renderClaim(&m), data)
+			}
+			_, _, _ = hOK, rOK, reason
+		}
+	})
+}
+
+// fixedC15World: oracle enabled, client configured, two price pairs plus the timestamp pair, the
+// recorded L1 validator set has powers 40/30/30 at height 5.
+func fixedC15World() *c15World {
+	w := &c15World{exec: henv.MakeUser("c15-exec"), stranger: henv.MakeUser("c15-stranger"), stored: map[string]c15Val{}}
+	w.l2 = henv.NewL2(henv.L2Options{Admin: w.exec.Str, Executors: []string{w.exec.Str}})
+	w.l2.Ctx = w.l2.Ctx.WithBlockHeight(50)
+	w.client = c15ClientID
+	w.setBridgeInfo(true)
+	w.l2.OK.InitGenesis(w.l2.Ctx, oracletypes.GenesisState{CurrencyPairGenesis: []oracletypes.CurrencyPairGenesis{}})
+	w.pairs = []string{"BTC/USD", "ETH/USD", c15TsPair}
+	for _, p := range w.pairs {
+		cp, err := connecttypes.CurrencyPairFromString(p)
+		if err != nil {
+			panic(err)
+		}
+		if err := w.l2.OK.CreateCurrencyPair(w.l2.Ctx, cp); err != nil {
+			panic(err)
+		}
+	}
+	set := &cmtproto.ValidatorSet{}
+	for i, p := range []int64{40, 30, 30} {
+		k := henv.MakeConsKey(fmt.Sprintf("l1val-%d", i))
+		v := c15Val{priv: k, power: p, addr: k.PubKey().Address()}
+		w.vals = append(w.vals, v)
+		pk, err := cryptocodec.ToCmtProtoPublicKey(k.PubKey())
+		if err != nil {
+			panic(err)
+		}
+		set.Validators = append(set.Validators, &cmtproto.Validator{Address: v.addr, PubKey: pk, VotingPower: p})
+		w.stored[string(v.addr)] = v
+	}
+	if err := w.l2.K.UpdateHostValidatorSet(w.l2.Ctx, c15ClientID, 5, set); err != nil {
+		panic(err)
+	}
+	w.storedHeight = 5
+	return w
+}
+
+func (w *c15World) fixedVote(v c15Val, height int64, round int32, ts int64, price int64) cometabci.ExtendedVoteInfo {
+	prices := map[uint64][]byte{}
+	for _, p := range w.pairs {
+		id, _ := currencypair.CurrencyPairToHashID(p)
+		val := big.NewInt(price)
+		if p == c15TsPair {
+			val = big.NewInt(ts)
+		}
+		bz, _ := val.GobEncode()
+		prices[id] = bz
+	}
+	ext, _ := c15VeCodec.Encode(vetypes.OracleVoteExtension{Prices: prices})
+	sig, _ := v.priv.Sign(c15SignBytes(c15ChainID, height-1, int64(round), ext))
+	return cometabci.ExtendedVoteInfo{Validator: cometabci.Validator{Address: v.addr, Power: v.power}, VoteExtension: ext, ExtensionSignature: sig, BlockIdFlag: cmtproto.BlockIDFlagCommit}
+}
+
+// FuzzC15Commit: the fuzzer owns the (uncompressed) extended-commit bytes of an oracle update sent by
+// the executor at height 6 - seeded with an honest full commit, a 70 % commit, a 40 % commit padded
+// with unsigned repeats; an earlier honest update has set prices at timestamp T. Judged by the
+// soundness side of TestC15Rapid: whatever changes is backed by a signed two-thirds quorum, carries a
+// signed value and a later timestamp; a failed update changes nothing.
+func FuzzC15Commit(f *testing.F) {
+	const ts0 = int64(1_700_000_000_000_000_000)
+	{
+		w := fixedC15World()
+		enc := func(votes ...cometabci.ExtendedVoteInfo) []byte {
+			eci := cometabci.ExtendedCommitInfo{Round: 1, Votes: votes}
+			bz, err := eci.Marshal()
+			if err != nil {
+				panic(err)
+			}
+			return bz
+		}
+		v := w.vals
+		f.Add(enc(w.fixedVote(v[0], 6, 1, ts0+5000, 200), w.fixedVote(v[1], 6, 1, ts0+5000, 201), w.fixedVote(v[2], 6, 1, ts0+5000, 202)))
+		f.Add(enc(w.fixedVote(v[0], 6, 1, ts0+6000, 300), w.fixedVote(v[1], 6, 1, ts0+6000, 301)))
+		unsigned := w.fixedVote(v[1], 6, 1, ts0+7000, 999)
+		unsigned.ExtensionSignature = nil
+		f.Add(enc(w.fixedVote(v[0], 6, 1, ts0+7000, 400), unsigned, unsigned))
+		old := w.fixedVote(v[0], 6, 1, ts0-1, 500)
+		f.Add(enc(old, w.fixedVote(v[1], 6, 1, ts0-1, 500), w.fixedVote(v[2], 6, 1, ts0-1, 500)))
+		f.Add([]byte{})
+	}
+	f.Fuzz(func(t *testing.T, raw []byte) {
+		if len(raw) > 8000 {
+			return
+		}
+		var eci cometabci.ExtendedCommitInfo
+		if err := eci.Unmarshal(raw); err != nil {
+			return
+		}
+		data, err := c15EcCodec.Encode(eci)
+		if err != nil {
+			return
+		}
+		w := fixedC15World()
+		// an earlier honest update at timestamp ts0
+		first, _ := c15EcCodec.Encode(cometabci.ExtendedCommitInfo{Round: 1, Votes: []cometabci.ExtendedVoteInfo{w.fixedVote(w.vals[0], 6, 1, ts0, 100), w.fixedVote(w.vals[1], 6, 1, ts0, 100), w.fixedVote(w.vals[2], 6, 1, ts0, 100)}})
+		if r := w.l2.Deliver(opchildtypes.NewMsgUpdateOracle(w.exec.Str, 6, first)); !r.OK() {
+			t.Fatalf("setup: honest update refused: %v", r.Err)
+		}
+		before, digest := w.prices(), w.l2.Digest()
+		r := w.l2.Deliver(opchildtypes.NewMsgUpdateOracle(w.exec.Str, 6, data))
+		after := w.prices()
+		if !r.OK() && digest != w.l2.Digest() {
+			t.Fatalf("C15 violated: a failed oracle update changed state (%v)\ncommit %x", r.Err, raw)
+		}
+		perPair, total, values := w.honestPower(eci.Votes, 6, eci.Round)
+		if _, err := w.safety(before, after, r, w.exec.Str, perPair, total, values, 6); err != nil {
+			t.Fatalf("C15 violated: %v\ncommit %x", err, raw)
 		}
 	})
 }
